@@ -160,3 +160,17 @@ _spec.loader.exec_module(_c17)
 CONTRACTS.extend(c for c in _c17.CONTRACTS if c.key.endswith('send_error_response') or c.key.endswith('send_success_response'))
 for _k, _v in _c17.CLASS_SPECS.items():
     CLASS_SPECS.setdefault(_k, {}).update(_v)
+
+# ---- the tocimxml() encoders under contract in contracts/C01.py / C01_enc.py (which element is chosen for which
+# host/namespace combination, one child per item, no value child for NULL ...) are what makes the output DTD-valid
+# ("tocimxml()/tocimxmlstr() of every CIM object" clause of this property): shared here.
+if 'contracts_C01' not in _sys.modules:
+    _sp1 = _ilu.spec_from_file_location('contracts_C01', _os.path.join(_os.path.dirname(_os.path.abspath(__file__)), 'C01.py'))
+    _c01 = _ilu.module_from_spec(_sp1)
+    _sys.modules['contracts_C01'] = _c01
+    _sp1.loader.exec_module(_c01)
+else:
+    _c01 = _sys.modules['contracts_C01']
+CONTRACTS.extend(c for c in _c01.CONTRACTS if c.key.endswith('.tocimxml'))
+for _k, _v in _c01.CLASS_SPECS.items():
+    CLASS_SPECS.setdefault(_k, {}).update(_v)
